@@ -58,7 +58,7 @@ def run_variant(v):
             if r.returncode:
                 return (vid, False, 'variant does not compile')
         r = subprocess.run([sys.executable, os.path.join(VERIF, 'sa', 'check.py'), pid, '--repo', d, '--no-evidence', '--no-selftest',
-                            '--evidence-dir', os.path.join(d, 'ev')], capture_output=True, text=True, timeout=300)
+                            '--evidence-dir', os.path.join(d, 'ev')], capture_output=True, text=True, timeout=1800)
         out = r.stdout
         if kind == 'break':
             hit = [l for l in out.splitlines() if l.startswith('  ') and ('  %s  ' % rule) in l]
@@ -107,7 +107,7 @@ def run_patch(job):
         if r.returncode:
             return (vid, False, 'stored patch does not apply any more: refresh it (%s)' % (r.stdout + r.stderr).strip()[:120])
         r = subprocess.run([sys.executable, os.path.join(VERIF, 'sa', 'check.py'), pid, '--repo', d, '--no-evidence', '--no-selftest',
-                            '--evidence-dir', os.path.join(d, 'ev')], capture_output=True, text=True, timeout=600)
+                            '--evidence-dir', os.path.join(d, 'ev')], capture_output=True, text=True, timeout=1800)
         hits = [l.strip() for l in r.stdout.splitlines() if l.startswith('  pyx12') or l.startswith('ANALYSIS-ERROR')]
         if kind == 'seeded':
             if r.returncode == 1:
